@@ -461,3 +461,115 @@ PROPS["C11"] = dict(
     assumptions=["OS randomness is assumed sound; the property is about the crate actually drawing from it on every call"],
     trusted_base=TB_COMMON,
 )
+
+# ---------------------------------------------------------------------------------------------- C14
+
+_STATES = ["Locked+ReadWrite", "Locked+ReadOnly", "Locked+NoAccess", "Unlocked+ReadWrite", "Unlocked+ReadOnly", "Unlocked+NoAccess"]
+
+
+def _c14_floors(m, tier):
+    out = []
+    tr = m.cov.get("transition", {})
+    want_edges = 0
+    for s in _STATES:
+        if s == "Locked+NoAccess":
+            continue  # unreachable on Linux: mlock of PROT_NONE memory is refused (observed as a transition_err)
+        lk, pm = s.split("+")
+        for op, dst in (("munlock", "Unlocked+" + pm), ("mprotect_readonly", lk + "+ReadOnly"), ("mprotect_readwrite", lk + "+ReadWrite")):
+            want_edges += 1
+            if "%s --%s--> %s" % (s, op, dst) not in tr:
+                out.append("type-state edge never taken: %s --%s--> %s" % (s, op, dst))
+        if lk == "Unlocked":
+            if pm != "NoAccess" and "%s --mlock--> Locked+%s" % (s, pm) not in tr:
+                out.append("edge never taken: %s --mlock-->" % s)
+            if "%s --mprotect_noaccess--> Unlocked+NoAccess" % s not in tr:
+                out.append("edge never taken: %s --mprotect_noaccess-->" % s)
+    sv = m.cov.get("state_visited", {})
+    for c in ("HeapBytes", "HeapByteArray"):
+        for s in _STATES:
+            if s == "Locked+NoAccess":
+                continue  # only reachable if mlock of a no-access region succeeds, which Linux refuses
+            if "%s|%s" % (c, s) not in sv:
+                out.append("state never observed: %s %s" % (c, s))
+    lens = m.cov.get("length", {})
+    for L in (0, 1, 16, 32, 64, 4095, 4096, 4097, 8192, 8193):
+        if str(L) not in lens:
+            out.append("length %d never used" % L)
+    if len(m.cov.get("constructor", {})) < 11:
+        out.append("not all 11 constructors used")
+    if not m.cov.get("fork_probe"):
+        out.append("no forked-child access probe was performed")
+    return out[:12]
+
+
+def _valgrind_run(ctx):
+    """the C14 sequences (reduced corpus) under valgrind memcheck: memory errors inside the unsafe allocator / FFI"""
+    import re
+    import shutil
+    import subprocess
+    m = ctx["m"]
+    if shutil.which("valgrind") is None:
+        m.problems.append("valgrind not installed")
+        return
+    binary, bt = ctx["build"]("ni")
+    ctx["builds_used"]["ni"] = round(bt, 1)
+    logdir = os.path.join(ctx["cache"], "logs", ctx["pid"])
+    os.makedirs(logdir, exist_ok=True)
+    nsh = 8
+
+    def one(i):
+        lp = os.path.join(logdir, "valgrind.%d.jsonl" % i)
+        vl = os.path.join(logdir, "valgrind.%d.txt" % i)
+        cmd = ["valgrind", "--tool=memcheck", "--error-exitcode=97", "--errors-for-leak-kinds=none", "--leak-check=no", "-q", "--child-silent-after-fork=yes",
+               "--log-file=" + vl, binary, ctx["monitor"], "--tier", "tiny", "--seed", str(ctx["seed"]), "--shard", str(i), "--nshards", str(nsh),
+               "--log", lp, "--opt", "no_fork=1", "--opt", "no_efault=1", "--opt", "valgrind=1"]
+        try:
+            p = subprocess.run(cmd, env=ctx["env"], stdout=subprocess.PIPE, stderr=subprocess.PIPE, text=True, timeout=1500)
+            return i, p.returncode, lp, vl
+        except subprocess.TimeoutExpired:
+            return i, "timeout", lp, vl
+    from concurrent.futures import ThreadPoolExecutor
+    with ThreadPoolExecutor(max_workers=nsh) as ex:
+        res = list(ex.map(one, range(nsh)))
+    nerr = 0
+    for i, rc, lp, vl in res:
+        txt = open(vl, errors="replace").read() if os.path.exists(vl) else ""
+        blocks = [b for b in re.split(r"\n==\d+== \n", txt) if "Invalid" in b or "uninitialised" in b or "Mismatched" in b or "overlap" in b]
+        # reads performed by the monitor's own release hook (it inspects spare capacity on purpose) are not the crate's
+        blocks = [b for b in blocks if "protected::verif::" not in b.split("\n")[1] if len(b.split("\n")) > 1]
+        own_hook_only = rc == 97 and not blocks
+        if rc == "timeout":
+            m.problems.append("valgrind shard %d hit the watchdog" % i)
+        elif blocks or (rc == 97 and not own_hook_only):
+            nerr += len(blocks) or 1
+            first = (blocks[0] if blocks else txt)[:1500]
+            frame = re.search(r"(dryoc::[\w:<>]+)", first)
+            m.add_viol("%s|valgrind_memcheck_error|%s" % (ctx["pid"], frame.group(1) if frame else "unknown_frame"), len(blocks) or 1,
+                       {"report": first}, dict(seed=ctx["seed"], tier=ctx["tier"], monitor="valgrind:" + ctx["monitor"], build="ni", shard=-1, nshards=nsh))
+        ctx["merge_logs"](m, [(i, 0 if rc in (0, 1, 97) else rc, lp, "")], ctx["monitor"], "ni+valgrind", ctx["tier"], ctx["seed"], nsh)
+    ctx["extra_cov"]["valgrind"] = dict(tool="memcheck", shards=nsh, error_blocks=nerr, corpus="tier tiny of the same monitor, fork/EFAULT probes off")
+
+
+def _valgrind(monitor):
+    def fn(ctx):
+        ctx = dict(ctx)
+        ctx["monitor"] = monitor
+        _valgrind_run(ctx)
+    return fn
+
+
+PROPS["C14"] = dict(
+    level="exploration",
+    technique="runtime invariant monitoring: operation sequences over the protected-memory type-state graph executed against the real allocator; after every step an executable model is compared with the kernel's view (/proc/self/maps page rights, smaps VM_LOCKED flags, VmLck, EFAULT byte probes, forked children that must SIGSEGV) and contents; valgrind memcheck over a reduced corpus",
+    level_text="All operation sequences up to depth 3 (quick) / 4 (thorough) over {mlock, munlock, read-only, read-write, no-access, clone, resize down/up, write, drop} from each of 11 constructors, for region "
+               "lengths 0, 1, 16, 32, 64, page-1, page, page+1, 2*page, 2*page+1 and both containers, plus seeded random sequences of depth 10-12 with up to four regions alive; after every step each page holding "
+               "data must have exactly the advertised rights, be locked iff the type says so, be fenced by guard pages, keep its contents, and after the last drop nothing stays locked or protected. "
+               "Bounded-exhaustive within the depth, sampling beyond.",
+    level_note="Linux only (mprotect/mlock paths); the kernel's /proc reporting is trusted after a start-up self-check against a region the harness maps, protects and locks itself. An Err from an operation the OS refuses is a result, not a violation.",
+    runs=lambda tier: [dict(build="ni", monitor="c14")] + ([dict(kind="custom", fn=_valgrind("c14"))]),
+    floors=_c14_floors,
+    rule="a case is one operation sequence (container, length, constructor, ops); distinct by enumeration index; sequences containing an operation the type system does not offer in the reached state are pruned "
+         "at that point and not counted as distinct; evaluations = individual model-vs-kernel comparisons",
+    assumptions=["Windows VirtualLock/VirtualProtect paths are not executable here", "Locked+NoAccess is only reachable if the OS lets mlock succeed on PROT_NONE memory (Linux does not)"],
+    trusted_base=TB_COMMON + ["Linux /proc/self/{maps,smaps,status}", "hook: protected::verif allocator observer (feature verif_hooks)"],
+)
